@@ -11,6 +11,6 @@ CONSTANTS
   ReconBug = ""
   Pool <- PoolMid
   MaxWord = 4
-  Mins <- MinsThorough
+  Mins <- MinsQuick
 INVARIANTS TeXSatisfiesRelation Inserts
 CHECK_DEADLOCK FALSE
